@@ -3,6 +3,7 @@ the event log the oracles read.  Every call into the system under test is
 wrapped: exceptions become data.
 """
 from . import ir
+from ..core.rng import errname
 
 REF_CAP = 400  # dynamic instructions
 
@@ -122,7 +123,7 @@ class FetchSpy:
 
 def exc_info(e):
     return {
-        "type": type(e).__name__,
+        "type": errname(e),
         "address": getattr(e, "address", None),
         "repr": getattr(e, "instruction_repr", None),
         "msg": str(getattr(e, "error_message", ""))[:120],
